@@ -451,6 +451,11 @@ pub fn gen_sys(r: &mut Rng) -> String {
                             bytes[i / 8] |= 0x80 >> (i % 8);
                         }
                     }
+                    // spare bits of the last byte set now and then: what lies behind the last piece is nobody's business
+                    if np % 8 != 0 && r.chance(1, 3) {
+                        let last = bytes.len() - 1;
+                        bytes[last] |= (r.next() as u8) & (0xffu8 >> (np % 8));
+                    }
                     format!("f{}:bf,{}", k, hex(&bytes))
                 }
                 6..=10 => format!("f{}:un", k),
